@@ -373,7 +373,7 @@ func nonNilSideSurfaces(fn *ssa.Function, n *ssa.BasicBlock, fnReturnsErr bool, 
 		ok := true
 		switch last := b.Instrs[len(b.Instrs)-1].(type) {
 		case *ssa.Return:
-			ok = fnReturnsErr && d[last.Results[len(last.Results)-1]]
+			ok = fnReturnsErr && (d[last.Results[len(last.Results)-1]] || d[RetErr(last)])
 		case *ssa.Panic:
 			ok = false
 		default:
@@ -417,7 +417,7 @@ func nonNilSideSurfaces(fn *ssa.Function, n *ssa.BasicBlock, fnReturnsErr bool, 
 		switch last := b.Instrs[len(b.Instrs)-1].(type) {
 		case *ssa.Return:
 			if fnReturnsErr {
-				op := last.Results[len(last.Results)-1]
+				op := RetErr(last)
 				if isNilConst(op) {
 					out = append(out, Swallow{From: b, Why: "the non-nil side returns a nil error", Pos: last.Pos()})
 				}
